@@ -86,14 +86,11 @@ Section WithTables.
     (dedup_ops ids, dedup_ops (dedup_ops ids)).
   Definition run_ops (cases : list (list str * (list str * list str))) : list N :=
     report (pair_eqb (list_eqb str_eqb) (list_eqb str_eqb)) ops_obs
-           (fun ids => [guard_F07a ids]) cases.
+           (fun _ => []) cases.
 
-  (* the path variables come from a Python set: the order in which the missing ones are appended is
-     hash order, so both sides sort the appended part *)
+  (* undeclared path variables are appended in template order (F09a fixed: no longer a set) *)
   Definition params_obs (x : (list str * option str) * list str) : list str :=
-    let declared := params (fst (fst x)) (snd (fst x)) [] in
-    let all := params (fst (fst x)) (snd (fst x)) (snd x) in
-    declared ++ isort str_leb (skipn (length declared) all).
+    params (fst (fst x)) (snd (fst x)) (snd x).
   Definition run_params (cases : list (((list str * option str) * list str) * list str)) : list N :=
     report (list_eqb str_eqb) params_obs
            (fun x => [guard_F04c (fst (fst x)); guard_F04d (fst (fst x)) (snd (fst x))]) cases.
